@@ -620,9 +620,10 @@ func TaskID() int {
 // RunInline runs f on the calling goroutine as a single pseudo-task: yields are counted, depth
 // is tracked, step caps are enforced, nothing is scheduled.
 func RunInline(f func()) {
+	prev := cur
 	t := &task{id: 0, curSite: -1, prevSite: -1}
 	cur = t
-	defer func() { cur = nil }()
+	defer func() { cur = prev }()
 	f()
 }
 
